@@ -310,3 +310,12 @@ def gen_case(rng, nprod=None, kind=None):
     case["first_get"] = rng.choice([0, 0, 3, 7, 2.5])
     case["T"] = 80
     return case
+
+
+def gen_odd_length(rng):
+    """continuous belts whose length is not a whole number of item lengths (or not whole itself)"""
+    c = gen_case(rng, nprod=1, kind="cont")
+    il = c["item_length"]
+    c["length"] = il * rng.choice([1.5, 2.5]) if il >= 1 else rng.choice([0.5, 1.5, 2.5])
+    c["odd_length"] = True
+    return c
